@@ -8,7 +8,6 @@ import (
 	"strings"
 )
 
-func runProgramFile(path string, seed int64) { fatal("prog: not built yet") }
 
 // replay: re-execute the calls of a recorded unit (a replay file written by
 // bin/check) against the real code and record them again.
@@ -151,7 +150,12 @@ func replayFile(path string) {
 			recSweep(intsOf(e["prefix"]), int(num(e["lang"])))
 		case "MapLens":
 			mapLens()
-		case "Reset", "Cut", "Read", "NewMnemonic", "Recheck":
+		case "Cut":
+			if kind, _ := e["source"].(string); kind != "" && kind != "os" && injected == nil {
+				injected = &fixedReader{fill: newRng(1, "replay")}
+				swapSource(injected, kind)
+			}
+		case "Reset", "Read", "NewMnemonic", "Recheck":
 			// nothing to re-execute
 		default:
 			replayExtra(op, e)
@@ -163,3 +167,78 @@ func replayFile(path string) {
 var injected *fixedReader
 
 func currentSourceIsInjected() (*fixedReader, bool) { return injected, injected != nil }
+
+// ---- programs -------------------------------------------------------------
+// A program is a list of steps produced by the driver from TLC-generated
+// behaviours (edge covers of MC_Reader's state graph, simulated call sequences
+// of MC_History, ...).  Steps name abstract argument classes; concretisation is
+// deterministic in (seed, class description), so the same abstract argument is
+// the same concrete argument in every history.
+
+type pstep struct {
+	Op     string  `json:"op"`
+	Kind   string  `json:"kind,omitempty"`
+	N      int64   `json:"n,omitempty"`
+	Lang   int64   `json:"lang,omitempty"`
+	Script []rstep `json:"script,omitempty"`
+	After  string  `json:"after,omitempty"`
+	Cls    string  `json:"cls,omitempty"`
+	Size   int     `json:"size,omitempty"`
+	Var    int     `json:"var,omitempty"`
+	Fill   int     `json:"fill,omitempty"`
+}
+
+type program struct {
+	Steps []pstep `json:"steps"`
+}
+
+func runProgramFile(path string, seed int64) {
+	b, err := os.ReadFile(path)
+	if err != nil {
+		fatal(err)
+	}
+	var p program
+	if err := json.Unmarshal(b, &p); err != nil {
+		fatal(err)
+	}
+	runProgram(p, seed)
+}
+
+var progSrc *scriptReader
+
+func runProgram(p program, seed int64) {
+	for i, st := range p.Steps {
+		switch st.Op {
+		case "cut":
+			maybeCutNow()
+		case "swap":
+			if st.Kind == "os" {
+				progSrc = nil
+				swapSource(osRandReader(), "os")
+			} else {
+				progSrc = &scriptReader{fill: newRng(seed, "prog/bytes"), after: "data"}
+				swapSource(progSrc, st.Kind)
+			}
+		case "new":
+			if progSrc != nil {
+				progSrc.script, progSrc.pos, progSrc.after = st.Script, 0, st.After
+				if progSrc.after == "" {
+					progSrc.after = "data"
+				}
+				progSrc.fill = newRng(seed, "prog/bytes/"+strconv.Itoa(st.Fill)+"/"+strconv.Itoa(i))
+			}
+			recNewMnemonic(st.N, st.Lang, nil)
+		case "maplens":
+			mapLens()
+		case "recheck":
+			recheckSeeds()
+		default:
+			runAbstractStep(st, seed)
+		}
+	}
+}
+
+func maybeCutNow() {
+	emit(Event{"op": "Cut", "source": curSource})
+	lastCut = nEvents
+}
